@@ -339,6 +339,10 @@ func runFixed(c *core.Ctx, i int) {
 		r.c.Branch("fixed/failed-flush")
 	case 20:
 		runContainerRace(r)
+	case 23:
+		runSparseFixed(r)
+	case 24:
+		runFlushBeforeLoadFixed(r)
 	case 21:
 		// witness of finding memdb-index-load-missing-container-negative-index: series 65535
 		// (container 0) and 65536 (container 1) are written; restart (everything is flushed, the
